@@ -61,9 +61,44 @@ def gen_family(rng, n_classes=None, kinds=None, n_variants=None, rich=False):
             if fn:
                 ctx['for_namespaces'] = fn
             v['context'] = ctx or None
-        files['main_' + v['file']] = {'uses': uses}
+            if fn and rng.random() < 0.35:
+                # the same, given as a LIST of two contexts that both have entries for one namespace (for different parameters where possible)
+                ns_ = rng.choice(sorted(fn))
+                k2 = rng.choice([k for k in keys if k not in fn[ns_]] or keys)
+                v['context'] = [ctx, {'for_namespaces': {ns_: {k2: gen.gen_value(rng, 1, 2, gen.SAFE, gen.SAFE)}}}]
+        main = {'uses': uses}
+        if rich and len(uses) == 2 and v['ns'] and rng.random() < 0.5 and any(classes[c]['kind'] != 'genempty' for c in pfile['tasks']):
+            # a task of the main config that takes the SAME task from both mounts as inputs (names differing only in the namespace)
+            cid = rng.choice(sorted(c for c in pfile['tasks'] if classes[c]['kind'] != 'genempty'))
+            slug = gen.slug_of(classes[cid], modname)
+            refs = [u.split(' as ')[1] + '::' + slug for u in uses]
+            jid = f'K{len(classes)}'
+            classes[jid] = {'name': f'joined{v_index(variants, v)}', 'group': '', 'base': 'Task', 'params': [], 'kind': 'json', 'run_args': [],
+                            'inputs': [{'by': 'name', 'ref': r_} for r_ in refs], 'pull': list(refs), 'in_kinds': {r_: classes[cid]['kind'] for r_ in refs}}
+            main['tasks'] = [jid]
+            v['join'] = (jid, cid, [u.split(' as ')[1] for u in uses])
+        files['main_' + v['file']] = main
+    # a sibling of a variant with a join task: the same tree, except for one parameter of the FIRST of the two joined inputs
+    for v in [w for w in variants if w.get('join')]:
+        jid, cid, nss = v['join']
+        pkeys = [p.get('nic') or p['name'] for p in classes[cid]['params'] if not p.get('ignore') and p.get('dtype') != 'path']
+        if not pkeys or rng.random() < 0.3:
+            continue
+        sib = {'file': f'v{len(variants)}.json', 'data': copy.deepcopy(v['data']), 'ns': v['ns']}
+        ctx = copy.deepcopy(v.get('context') or {})
+        last = ctx[-1] if isinstance(ctx, list) else ctx
+        last.setdefault('for_namespaces', {}).setdefault(nss[0], {})[rng.choice(pkeys)] = gen.gen_value(rng, 1, 2, gen.SAFE, gen.SAFE)
+        sib['context'] = ctx
+        files[sib['file']] = sib['data']
+        files['main_' + sib['file']] = copy.deepcopy(files['main_' + v['file']])
+        files['main_' + sib['file']]['uses'] = [u.replace(v['file'], sib['file']) for u in files['main_' + v['file']]['uses']]
+        variants.append(sib)
     spec = {'module': modname, 'classes': classes, 'files': files, 'main': 'main_v0.json'}
     return spec, variants
+
+
+def v_index(variants, v):
+    return next(i for i, w in enumerate(variants) if w is v)
 
 
 def gen_ops(rng, spec, variants, length, allow):
@@ -179,10 +214,14 @@ def ref_param_values(task, spec, variant, name=None):
     full = name or task.fullname            # the name the task is registered under in the chain decides its namespace
     ns = full[:-len(task.slugname) - 2] if full != task.slugname else None
     data = dict(variant['data'])
-    ctx = variant.get('context') or {}
-    data.update({k: v for k, v in ctx.items() if k != 'for_namespaces'})
+    ctxs = variant.get('context') or {}
+    ctxs = ctxs if isinstance(ctxs, list) else [ctxs]
+    # a list of contexts: later ones win, key by key — globally and within each namespace's entry
+    for ctx in ctxs:
+        data.update({k: v for k, v in ctx.items() if k != 'for_namespaces'})
     if ns is not None:
-        data.update((ctx.get('for_namespaces') or {}).get(ns, {}))
+        for ctx in ctxs:
+            data.update((ctx.get('for_namespaces') or {}).get(ns, {}))
     out = {}
     for p in cls_spec.get('params', []):
         nic = p.get('nic') or p['name']
@@ -190,7 +229,7 @@ def ref_param_values(task, spec, variant, name=None):
             v = data[nic]
         else:
             v = p.get('default')
-        if p.get('dtype') == 'path' and v is not None:
+        if p.get('dtype') == 'path' and isinstance(v, str):
             from pathlib import Path
             v = Path(v)
         out[p['name']] = v
